@@ -82,6 +82,28 @@ function QU(id, idx, val)
   if r then setupvalue(f, idx, old) end
   return 1
 end
+function QT(id, co)
+  if seen[id] then return 1 end
+  seen[id] = true
+  local inf = getinfo(co, 1, "Sl")
+  if inf then RI(id, 1, inf.what, inf.currentline, inf.linedefined, inf.lastlinedefined) end
+  local i = 1
+  while true do
+    local n, v = getlocal(co, 1, i)
+    if n == nil or n == "(*temporary)" then break end
+    RL(id, 1, 0, i, n, v)
+    i = i + 1
+  end
+  -- setlocal through the thread form changes the variable of the coroutine, and only that one
+  local n1, old = getlocal(co, 1, 1)
+  if n1 then
+    local r = setlocal(co, 1, 1, 777)
+    local _, now = getlocal(co, 1, 1)
+    RT(id, r == n1 and now == 777)
+    setlocal(co, 1, 1, old)
+  end
+  return 1
+end
 function sink(...) return 1 end
 function IDH(m) return m end
 T = { id = function(self, ...) return self end }
@@ -100,16 +122,17 @@ type frameInfo struct {
 type key3 struct{ ID, Lvl, Phase int }
 
 type runResult struct {
-	LoadErr string
-	TopErr  string         // error of the whole chunk ("" if it returned)
-	Scen    map[int]string // scenario -> error message ("" when pcall returned true)
-	ScenOK  map[int]bool
-	Info    map[[2]int]frameInfo
-	Locals  map[key3][]obsBinding
-	Upvals  map[key3][]obsBinding
-	ByFunc  map[[2]int][3]int // getinfo(func, "Sl"): linedefined, lastlinedefined, currentline
-	SetRet  map[int]*string   // QS/QU: returned name
-	SetSeen map[int]bool
+	LoadErr      string
+	TopErr       string         // error of the whole chunk ("" if it returned)
+	Scen         map[int]string // scenario -> error message ("" when pcall returned true)
+	ScenOK       map[int]bool
+	Info         map[[2]int]frameInfo
+	Locals       map[key3][]obsBinding
+	Upvals       map[key3][]obsBinding
+	ByFunc       map[[2]int][3]int // getinfo(func, "Sl"): linedefined, lastlinedefined, currentline
+	SetRet       map[int]*string   // QS/QU: returned name
+	ThreadSetBad []int             // QT: setlocal(co, 1, 1, v) did not change exactly that variable
+	SetSeen      map[int]bool
 }
 
 func lvInt(v lua.LValue) *int64 {
@@ -141,6 +164,12 @@ func runSource(src []byte) (res *runResult) {
 	}()
 	L.SetGlobal("RI", L.NewFunction(func(L *lua.LState) int {
 		res.Info[[2]int{L.CheckInt(1), L.CheckInt(2)}] = frameInfo{L.CheckString(3), L.CheckInt(4), L.CheckInt(5), L.CheckInt(6)}
+		return 0
+	}))
+	L.SetGlobal("RT", L.NewFunction(func(L *lua.LState) int {
+		if !lua.LVAsBool(L.Get(2)) {
+			res.ThreadSetBad = append(res.ThreadSetBad, L.CheckInt(1))
+		}
 		return 0
 	}))
 	L.SetGlobal("RF", L.NewFunction(func(L *lua.LState) int {
